@@ -1,4 +1,367 @@
+//! C07 — CRAM files round-trip their records and are structurally conformant containers.
+//!
+//! E1 (k-deviation record grammar × layouts × writer options × encoder assignments). Per execution
+//! the stream is written with the real writer, (1) read back with the real reader and the same
+//! repository and compared record by record on a normalised SAM rendering, (2) walked by the
+//! independent container walker (`gcram::walk`). Every case is executed twice (the writer iterates
+//! `HashMap`s; bytes of two writes are never compared).
+
+use gcram::{
+    io::{DATA_SERIES, Enc, Target, WriteCfg, read_cram, write_cram},
+    rec,
+    refs::{self, RefSeq},
+    stream::{self, BASE_STREAMS, DevSet},
+    walk,
+};
+use vmc::{Chooser, Config, Outcome, Violation};
+
+const LAYOUTS: [Option<usize>; 4] = [None, Some(1), Some(2), Some(3)];
+
+struct Env {
+    refs: Vec<RefSeq>,
+}
+
+fn fp(stage: &str, cfg: &WriteCfg, symptom: &str) -> String {
+    format!("stage={stage} series={} encoder={} symptom={symptom}", cfg.target.name(), cfg.enc_class())
+}
+
+/// One write → walk → read → compare pass. `Err((fingerprint, expected, observed))`.
+fn one_pass(
+    ch: &Chooser,
+    env: &Env,
+    st: &stream::Stream,
+    cfg: &WriteCfg,
+    first: bool,
+) -> Result<(), (String, String, String)> {
+    let recs = &st.recs;
+    let names: Vec<&str> = env.refs.iter().map(|r| r.name).collect();
+    let repo = refs::repository(&env.refs);
+    let header = refs::header(&env.refs);
+
+    let bytes = match write_cram(&repo, &header, recs, cfg) {
+        Ok(b) => b,
+        Err((step, f)) => {
+            // a refusal (`Err` of kind InvalidInput) is an accepted outcome for inputs the writer does
+            // not accept (undeclared read group); everything else is judged
+            if f.symptom.starts_with("err:InvalidInput:invalid_read_group_name") {
+                if first {
+                    ch.tag("writer refused the stream (undeclared read group)");
+                    ch.obs("refused");
+                }
+                return Ok(());
+            }
+            return Err((
+                fp("write", cfg, &f.symptom),
+                "the writer accepts the stream (or refuses an undeclared read group with InvalidInput)".into(),
+                format!("{} (during {step})", f.detail),
+            ));
+        }
+    };
+
+    // (2) container walker
+    let w = match walk::walk(&bytes).and_then(|w| walk::check_against_records(&w, recs, &env.refs).map(|_| w)) {
+        Ok(w) => w,
+        Err(e) => {
+            return Err((
+                fp("walk", cfg, &e.what.replace(' ', "_")),
+                "container invariants of CRAM v3 §7–§9 hold".into(),
+                e.detail,
+            ));
+        }
+    };
+    let want_31 = cfg.target != Target::DefaultMap && cfg.enc.is_3_1();
+    if first {
+        if w.version == (3, 1) {
+            ch.tag("version 3.1 file");
+        } else {
+            ch.tag("version 3.0 file");
+        }
+        if w.containers.len() > 1 {
+            ch.tag("several containers");
+        }
+        if w.containers.iter().any(|c| c.slices.iter().any(|s| s.ref_id == -2)) {
+            ch.tag("multi-reference slice");
+        }
+        if w.containers.iter().any(|c| c.slices.iter().any(|s| s.ref_id == -1)) {
+            ch.tag("unmapped slice");
+        }
+        if w.n_blocks_not_independent > 0 {
+            ch.tag("blocks whose raw size was established by noodles' own decoder (not independent)");
+        }
+        for (m, n) in w.methods_seen.iter().enumerate() {
+            if *n > 0 {
+                ch.tag(match m {
+                    0 => "block method raw",
+                    1 => "block method gzip",
+                    2 => "block method bzip2",
+                    3 => "block method lzma",
+                    4 => "block method rans4x8",
+                    5 => "block method ransNx16",
+                    6 => "block method aac",
+                    7 => "block method fqzcomp",
+                    _ => "block method tok3",
+                });
+            }
+        }
+        ch.steps(w.n_blocks_total as u64);
+    }
+    let _ = want_31;
+
+    // (1) read back
+    let (h2, got) = match read_cram(&bytes, &repo) {
+        Ok(x) => x,
+        Err((step, f)) => {
+            return Err((fp("read", cfg, &f.symptom), format!("{} records", recs.len()), format!("{} (during {step})", f.detail)));
+        }
+    };
+    let refs_back: Vec<(String, usize)> =
+        h2.reference_sequences().iter().map(|(k, v)| (k.to_string(), usize::from(v.length()))).collect();
+    let refs_in: Vec<(String, usize)> = env.refs.iter().map(|r| (r.name.to_string(), r.seq.len())).collect();
+    if refs_back != refs_in || h2.read_groups().len() != refs::READ_GROUPS.len() {
+        return Err((
+            fp("compare", cfg, "header-differs"),
+            format!("{refs_in:?} + {} read groups", refs::READ_GROUPS.len()),
+            format!("{refs_back:?} + {} read groups", h2.read_groups().len()),
+        ));
+    }
+    if got.len() != recs.len() {
+        return Err((
+            fp("compare", cfg, "record-count-differs"),
+            format!("{} records", recs.len()),
+            format!("{} records", got.len()),
+        ));
+    }
+    let accept_gen = !cfg.preserve_names;
+    for (i, (e, o)) in recs.iter().zip(got.iter()).enumerate() {
+        if let Some((col, ev, ov)) = rec::first_diff(e, o, &names, accept_gen) {
+            let class = &st.classes[i];
+            // default encoders: which column of which kind of record; a non-default encoder that
+            // returns other bytes garbles whatever the series carries, so the class is the encoder
+            let symptom = if cfg.target == Target::DefaultMap {
+                format!("field-differs:{col} rec={class}")
+            } else {
+                "field-differs".to_string()
+            };
+            return Err((
+                fp("compare", cfg, &symptom),
+                format!("record {i} {col} = {ev}   (whole line: {})", e.sam_line(&names)),
+                format!("record {i} {col} = {ov}   (whole line: {})", o.sam_line(&names)),
+            ));
+        }
+        if first && e.tag_order() != o.tag_order() {
+            ch.tag("tag order changed on read (not judged: CRAM stores RG apart)");
+        }
+    }
+    if accept_gen {
+        // generated names: the segments of one template must still share a name
+        for i in 0..recs.len() {
+            for j in i + 1..recs.len() {
+                // primary alignments only: a detached secondary / supplementary line keeps its real
+                // name while an attached primary pair gets a generated one (inherent to dropping names)
+                let primary = |r: &rec::Rec| r.flags & rec::PAIRED != 0 && r.flags & (rec::SECONDARY | rec::SUPPLEMENTARY) == 0;
+                let same_in = recs[i].name.is_some() && recs[i].name == recs[j].name && primary(&recs[i]) && primary(&recs[j]);
+                if same_in && got[i].name != got[j].name {
+                    return Err((
+                        fp("compare", cfg, "field-differs:name(mates-no-longer-share-a-name)"),
+                        format!("records {i} and {j} share a name"),
+                        format!(
+                            "{:?} vs {:?}",
+                            got[i].name.as_ref().map(|n| String::from_utf8_lossy(n).into_owned()),
+                            got[j].name.as_ref().map(|n| String::from_utf8_lossy(n).into_owned())
+                        ),
+                    ));
+                }
+            }
+        }
+    }
+    if first {
+        let lines: Vec<String> = got.iter().map(|r| r.sam_line(&names)).collect();
+        ch.obs_hash((&lines, w.containers.len(), w.n_blocks_total));
+    }
+    Ok(())
+}
+
+fn run_case(ch: &Chooser, env: &Env, which: usize, st: &stream::Stream, cfg: &WriteCfg, taken: &[String]) -> Outcome {
+    let names: Vec<&str> = env.refs.iter().map(|r| r.name).collect();
+    let describe = || {
+        format!(
+            "stream={} deviations=[{}] {} ; records: [{}] ; rendered: {}",
+            BASE_STREAMS[which],
+            taken.join(","),
+            cfg.describe(),
+            st.recs.iter().map(|r| r.literal()).collect::<Vec<_>>().join(", "),
+            stream::describe(&st.recs, &names),
+        )
+    };
+    ch.desc(describe);
+    // every case twice: hash iteration order in the writer is not controlled
+    let a = one_pass(ch, env, st, cfg, true);
+    let b = one_pass(ch, env, st, cfg, false);
+    if a.is_ok() && b.is_ok() {
+        return Ok(());
+    }
+    // A failure. Which block fails first can depend on the hash order, so the passes are repeated and
+    // the smallest fingerprint is reported (keeps the verdict and its class reproducible).
+    let mut fails: Vec<(String, String, String)> = Vec::new();
+    let mut passes = 0;
+    for r in [a, b] {
+        match r {
+            Ok(()) => passes += 1,
+            Err(f) => fails.push(f),
+        }
+    }
+    // only an assignment that touches several blocks (tag blocks, all-same maps) can fail in a block
+    // that depends on the iteration order
+    let extra = if matches!(cfg.target, Target::Tags | Target::AllSame) { 14 } else { 0 };
+    for _ in 0..extra {
+        match one_pass(ch, env, st, cfg, false) {
+            Ok(()) => passes += 1,
+            Err(f) => fails.push(f),
+        }
+    }
+    let classes: std::collections::BTreeSet<&str> = fails.iter().map(|f| f.0.as_str()).collect();
+    if passes > 0 || classes.len() > 1 {
+        ch.tag("repeated writes of one case gave different verdicts (hash order dependent)");
+    }
+    let n_classes = classes.len();
+    let (f, e, mut o) = fails.iter().min_by(|x, y| x.0.cmp(&y.0)).cloned().unwrap();
+    if passes > 0 || n_classes > 1 {
+        o.push_str(&format!("   [{} writes of this case: {passes} passed, {n_classes} distinct failure classes — depends on HashMap order]", 2 + extra));
+    }
+    Err(Violation::new(f, describe(), e, o))
+}
+
+/// Harness A: the default encoder map; stream × layout × options free, record fields deviate.
+fn body_default(
+    ch: &Chooser,
+    env: &Env,
+    devs: DevSet,
+    streams: &[usize],
+    layouts: &[Option<usize>],
+    opts: &[(bool, bool)],
+) -> Outcome {
+    let which = *ch.pick_free("stream", streams);
+    let layout = *ch.pick_free("layout", layouts);
+    let (preserve, delta) = *ch.pick_free("options", opts);
+    let mut protos = stream::base_stream(which);
+    let mut taken = Vec::new();
+    for p in protos.iter_mut() {
+        stream::deviate(ch, p, devs, &mut taken);
+    }
+    let st = stream::finalise(protos, &env.refs);
+    let cfg = WriteCfg { records_per_slice: layout, preserve_names: preserve, pos_delta: delta, ..Default::default() };
+    run_case(ch, env, which, &st, &cfg, &taken)
+}
+
+/// Harness B: one encoder varied at a time against the default map, plus the all-same maps.
+fn body_encoders(
+    ch: &Chooser,
+    env: &Env,
+    assignments: &[(Target, Enc)],
+    streams: &[usize],
+    layouts: &[Option<usize>],
+    devs: DevSet,
+) -> Outcome {
+    let (target, enc) = ch.pick_free("assignment", assignments).clone();
+    let which = *ch.pick_free("stream", streams);
+    let layout = *ch.pick_free("layout", layouts);
+    let preserve = *ch.pick_free("preserve_read_names", &[true, false]);
+    let mut protos = stream::base_stream(which);
+    let mut taken = Vec::new();
+    for p in protos.iter_mut() {
+        stream::deviate(ch, p, devs, &mut taken);
+    }
+    let st = stream::finalise(protos, &env.refs);
+    let cfg = WriteCfg { records_per_slice: layout, preserve_names: preserve, pos_delta: true, target, enc };
+    run_case(ch, env, which, &st, &cfg, &taken)
+}
+
+fn assignments(nx16: &[u8], aac: &[u8], gz: &[u32]) -> Vec<(Target, Enc)> {
+    let mut encs: Vec<Enc> = vec![Enc::None];
+    encs.extend(gz.iter().map(|l| Enc::Gzip(*l)));
+    encs.extend([Enc::Bzip2(9), Enc::Lzma(6), Enc::R4x8o0, Enc::R4x8o1]);
+    encs.extend(nx16.iter().map(|f| Enc::Nx16(*f)));
+    encs.extend(aac.iter().map(|f| Enc::Aac(*f)));
+    let mut out = Vec::new();
+    let mut targets = vec![Target::Core, Target::Tags];
+    targets.extend((0..DATA_SERIES.len()).map(Target::Series));
+    targets.push(Target::AllSame);
+    for t in &targets {
+        for e in &encs {
+            out.push((t.clone(), e.clone()));
+        }
+    }
+    // the two special-purpose codecs on the series they are made for
+    out.push((Target::Series(6), Enc::Tok3));
+    out.push((Target::Series(27), Enc::Fqz));
+    out
+}
+
 fn main() {
-    println!("MACHINERY-ERROR property=C07 check not built yet");
-    std::process::exit(2);
+    vmc::run("C07", "model_checking", |ctx| {
+        ctx.rule(
+            "harness default_map_*: base stream x records-per-slice {default,1,2,3} x (preserve_read_names, position deltas) enumerated \
+             completely, every record field (CIGAR shape, position, reference, placement, bases, qualities, name, strand, flags, MAPQ, \
+             tag set, read group) deviates from its base value under the bound k; harness encoders_*: every (target in core / each of \
+             the 28 data series / tag blocks / all-same) x encoder of the alphabet, one at a time against the default map, x stream x \
+             layout x preserve_read_names; each case is written twice; distinct = distinct (rendered records, container count, block \
+             count) logs; transitions = blocks walked",
+        );
+        ctx.assume("gcram::walk (own ITF8/LTF8, crc32fast, md-5, miniz_oxide inflate, bzip2 and lzma-rust2 crates) is correct; calibrated on default-writer files of ordinary reads");
+        ctx.assume("raw sizes of rANS 4x8 / rANS Nx16 / AAC / fqzcomp / tok3 blocks are established with noodles' own decoders (hook H3) - not independent; for rANS 4x8 the sizes inside the stream are also checked");
+        ctx.assume("CRAM cannot represent =/X (become M), adjacent equal CIGAR ops merge, RG is stored apart from the tag list: CIGAR is compared after that normalisation and tags as a multiset");
+        ctx.assume("hash iteration order inside the writer is not controlled; every case runs twice and disagreements are counted");
+        ctx.assume("verdicts use slices_per_container = 1 only");
+        let env = Env { refs: refs::references() };
+        let all_opts = [(true, true), (false, true), (true, false), (false, false)];
+        let q_nx16 = [0u8, 0x01, 0x20, 0x40, 0x80, 0x08, 0x04, 0x10, 0xc1];
+        let q_aac = [0u8, 0x01, 0x20, 0x40, 0x80, 0x08, 0x04];
+        let only = std::env::var("C07_ONLY").unwrap_or_default();
+        let want = |name: &str| only.is_empty() || name.contains(&only);
+        let content = DevSet { content: true, ..DevSet::NONE };
+        if ctx.quick() {
+            let q_opts = [(true, true), (false, false)];
+            if want("default_map_k1") {
+                ctx.harness(Config::new("default_map_k1", 1), |ch| body_default(ch, &env, DevSet::ALL, &[0, 1, 2, 3, 4, 5], &LAYOUTS, &q_opts));
+            }
+            if want("default_map_k2_single") {
+                ctx.harness(Config::new("default_map_k2_single", 2), |ch| {
+                    body_default(ch, &env, DevSet::ALL, &[0], &[None], &[(true, true)])
+                });
+            }
+            if want("encoders_k0") {
+                let asg = assignments(&q_nx16, &q_aac, &[1, 9]);
+                ctx.harness(Config::new("encoders_k0", 0), |ch| body_encoders(ch, &env, &asg, &[5], &[None], DevSet::NONE));
+            }
+        } else {
+            if want("default_map_k2") {
+                ctx.harness(Config::new("default_map_k2", 2), |ch| {
+                    body_default(ch, &env, DevSet::ALL, &[0, 1, 2, 3, 4], &[None, Some(2)], &[(true, true)])
+                });
+            }
+            if want("default_map_k1_all_options") {
+                ctx.harness(Config::new("default_map_k1_all_options", 1), |ch| {
+                    body_default(ch, &env, DevSet::ALL, &[0, 1, 2, 3, 4, 5], &LAYOUTS, &all_opts)
+                });
+            }
+            if want("default_map_k3_single") {
+                // k = 3 without the tag / name alphabets (they do not interact with the record layout)
+                let core = DevSet { tags: false, naming: false, ..DevSet::ALL };
+                ctx.harness(Config::new("default_map_k3_single", 3), |ch| body_default(ch, &env, core, &[0], &[None], &[(true, true)]));
+            }
+            if want("encoders_all_flag_sets_k0") {
+                let all: Vec<u8> = (0..=255u8).filter(|f| f & 0x02 == 0).collect();
+                let asg = assignments(&all, &all, &[0, 1, 6, 9]);
+                ctx.harness(Config::new("encoders_all_flag_sets_k0", 0), |ch| {
+                    body_encoders(ch, &env, &asg, &[5, 1, 3], &[None, Some(2)], DevSet::NONE)
+                });
+            }
+            if want("encoders_k1_content") {
+                let asg1 = assignments(&q_nx16, &q_aac, &[6]);
+                ctx.harness(Config::new("encoders_k1_content", 1), |ch| {
+                    body_encoders(ch, &env, &asg1, &[5], &[None], content)
+                });
+            }
+        }
+    });
 }
